@@ -86,7 +86,7 @@ struct Model {
     if (guards.second_monitor && op.kind == OP_MONITOR && watched_has_monitor(op.obj)) return true;
     if (guards.orphan_use) {
       if (op.kind == OP_CALL)
-        for (auto& e : st.e) if (e.alive && !e.is_monitor && e.hooked && !e.saturated && e.orphan && e.obj == op.obj && e.fn == op.fn) return true;
+        for (auto& e : st.e) if (e.alive && !e.is_monitor && e.hooked && !e.saturated && e.orphan && e.obj == op.obj) return true;
       if (op.kind == OP_DELETE_WATCHED)
         for (auto& e : st.e) if (e.alive && e.is_monitor && e.orphan && e.obj == op.obj && !e.died) return true;
     }
@@ -262,7 +262,7 @@ struct Model {
     }
     if (tracing) {
       std::string t = tr_prefix;
-      if (status == 0) { if (sh.act == ACT_RET) { std::ostringstream k; k << "-> " << 100 + chosen; t += k.str(); } else if (sh.act == ACT_RETREF) t += "-> ref"; }
+      if (status == 0) { if (sh.act == ACT_RET) { std::ostringstream k; k << "-> " << 100 + chosen; t += k.str(); } else if (sh.act == ACT_RETREF) { std::ostringstream k; k << "-> " << 500 + chosen; t += k.str(); } }
       else if (result.compare(0, 2, "e:") == 0) t += "threw exception: what() = " + result.substr(2);
       else t += "threw unknown exception";
       o.traces.push_back(t);
@@ -357,9 +357,10 @@ struct Model {
         if (s.n > 0) {
           Report r; r.fatal = false; r.kind = R_SEQ_TEARDOWN; r.slot = -1; r.gen = st.repgen;
           std::ostringstream d; d << '[';
-          for (int j = 0; j < s.n; ++j) { d << (int)s.pend[j] << ','; st.e[s.pend[j]].orphan |= (uint8_t)(1u << op.s1); }
+          for (int j = 0; j < s.n; ++j) d << (int)s.pend[j] << ',';
           d << ']'; r.detail = d.str(); o.reps.push_back(r);
         }
+        for (auto& e : st.e) if (e.alive && in_seq(e, op.s1)) e.orphan |= (uint8_t)(1u << op.s1);
         s.alive = 0; s.n = 0; for (auto& p : s.pend) p = -1;
         break;
       }
